@@ -1237,6 +1237,11 @@ def default_seed_case(ctx, case):
     if hostile:
       ctx.count('infeasible_default_refused')
       ctx.count('infeasible_default_decided')
+    elif seed_route == 'direct':
+      # default / centre seeding is not an algorithm with limits of its own: for a valid flat
+      # space (defaults absent or feasible) it has to name a point of the space
+      ctx.violation(f'default-seed-refused-valid-space:{type(e).__name__}',
+                    f'get_default_parameters raised {type(e).__name__} on a valid search space: {e}'[:400], case)
     return
   if not got:
     ctx.count('default_seed_nothing_delivered')
